@@ -144,9 +144,10 @@ Inductive eofpos :=
 Inductive nstage := NGsv | NSpv | NDone.
 Inductive cres :=
 | CErrInit           (* checkInitialMessage failed *)
-| CErrNeg            (* negotiate failed *)
+| CErrNeg            (* negotiate failed: unacceptable reply *)
+| CErrCtx            (* negotiate failed: its send returned ctx.Err() (only with WithTimeout) *)
 | CErrLoop (e : lerr)(* first value received from errs *)
-| CErrClosed.        (* done was closed: ErrClientClosed *)
+| CErrClosed.        (* done was closed: ErrClientClosed (also: negotiate's send returned an error wrapping it) *)
 
 Inductive conn_phase :=
 | PInit                          (* Connect not called yet *)
@@ -163,6 +164,8 @@ Inductive conn_phase :=
 Record config := mkConfig {
   filter_unsolicited : bool;  (* false = today's passToHandler: awaiting[hdr.id] is consulted whatever hdr.typ is;
                                  true  = the await map is not consulted for KeepAlive/ROAccessReport/ReaderEventNotification *)
+  stamp_always : bool;        (* false = the write loop keeps a version the Message already carries (newMessage pre-stamps 1: F5);
+                                 true  = every frame except the two negotiation messages gets c.version (reader.go:813-819 after the fix) *)
   cfg_version : N;            (* WithVersion: 1 = 1.0.1 (no negotiation), 2 = 1.1 *)
   ack_handler : bool;         (* handlers[MsgKeepAlive] is the built-in ackHandler (default) *)
   user_handlers : list N;     (* message types with a WithMessageHandler handler *)
